@@ -531,4 +531,77 @@ Section InvAny.
     - rewrite (np_delete_noreg [] os M HL), map_map. apply map_ext_in. intros i Hi.
       apply np_delete_noreg. apply HR. apply reg_indices_lt. exact Hi.
   Qed.
+
+  (* ---- scipy block_diag of the per-object matrices: entry (i, j) is [s_H_at] *)
+  Lemma nth_repeat_any {A} (z : A) n j : nth j (repeat z n) z = z.
+  Proof. revert j. induction n as [|n IH]; intros [|j]; simpl; auto. Qed.
+  Lemma nth_padded {A} (z : A) a c row j :
+    nth j (repeat z a ++ row ++ repeat z c) z = if (a <=? j) && (j <? a + length row) then nth (j - a) row z else z.
+  Proof.
+    destruct (Nat.leb_spec a j) as [L|L]; cbn [andb].
+    - rewrite app_nth2 by (rewrite repeat_length; lia). rewrite repeat_length.
+      destruct (Nat.ltb_spec j (a + length row)) as [L2|L2].
+      + rewrite app_nth1 by lia. reflexivity.
+      + rewrite app_nth2 by lia. apply nth_repeat_any.
+    - rewrite app_nth1 by (rewrite repeat_length; lia). apply nth_repeat_any.
+  Qed.
+  Definition blocks_okb (os : list (nat * bool)) (bs : list (list (list (T O)))) : bool :=
+    Nat.eqb (length bs) (length os) &&
+    forallb (fun p => squareb (fst (fst p)) (snd p) || negb (snd (fst p))) (combine os bs).
+  Definition bds (os : list (nat * bool)) (bs : list (list (list (T O)))) :=
+    map2 (fun o b => (fst o, obj_block o b)) os bs.
+  Lemma obj_block_ok o (b : list (list (T O))) : squareb (fst o) b || negb (snd o) = true ->
+    squareb (fst o) (obj_block o b) = true /\
+    forall i j, mat_at (obj_block o b) i j = if snd o then mat_at b i j else zero.
+  Proof.
+    intros H. unfold obj_block, mat_at. destruct (snd o); cbn [negb] in H.
+    - rewrite orb_false_r in H. split; [exact H | reflexivity].
+    - split.
+      + unfold squareb. rewrite repeat_length, Nat.eqb_refl. cbn [andb]. apply forallb_forall.
+        intros r Hr. apply repeat_spec in Hr. subst r. rewrite repeat_length. apply Nat.eqb_refl.
+      + intros i j. destruct (Nat.ltb_spec i (fst o)) as [L|L].
+        * rewrite (nth_indep _ [] (repeat zero (fst o))) by (rewrite repeat_length; exact L).
+          rewrite nth_repeat_any. apply nth_repeat_any.
+        * rewrite (nth_overflow (repeat (repeat zero (fst o)) (fst o)) []) by (rewrite repeat_length; exact L).
+          destruct j; reflexivity.
+  Qed.
+  Lemma block_diag_entries os : forall bs left total,
+    blocks_okb os bs = true -> left + n_params os <= total ->
+    length (block_diag_from left total (bds os bs)) = n_params os /\
+    (forall i, i < n_params os -> length (nth i (block_diag_from left total (bds os bs)) []) = total) /\
+    (forall i j, i < n_params os -> j < total ->
+       mat_at (block_diag_from left total (bds os bs)) i j =
+       if (left <=? j) && (j <? left + n_params os) then s_H_at os bs i (j - left) else zero).
+  Proof.
+    unfold blocks_okb, n_params.
+    induction os as [|[p r] os IH]; intros [|b bs] left total H HT; cbn [length] in H;
+      try (apply andb_prop in H as [H _]; apply Nat.eqb_eq in H; discriminate).
+    - cbn. split; [reflexivity|]. split; intros; lia.
+    - cbn [combine forallb map list_sum fold_right fst snd] in H, HT |- *.
+      change (fold_right Init.Nat.add 0 (map fst os)) with (list_sum (map fst os)) in *.
+      apply andb_prop in H as [HL H]. apply andb_prop in H as [HB H]. cbn [Nat.eqb] in HL.
+      destruct (obj_block_ok (p, r) b HB) as [HSq HE]. cbn [fst snd] in HSq, HE.
+      destruct (squareb_spec _ _ HSq) as [BL BR].
+      specialize (IH bs (left + p) total). rewrite HL, H in IH. specialize (IH eq_refl ltac:(lia)).
+      destruct IH as (IL & IR & IE).
+      unfold bds in *. cbn [map2 block_diag_from fst snd].
+      set (g := fun row => repeat zero left ++ row ++ repeat zero (total - left - p)).
+      set (B := obj_block (p, r) b) in *. set (rest := block_diag_from (left + p) total _) in *.
+      assert (GL : length (map g B) = p) by (rewrite map_length; exact BL).
+      split; [rewrite app_length, GL, IL; reflexivity|]. split.
+      + intros i Hi. destruct (Nat.ltb_spec i p) as [L|L].
+        * rewrite app_nth1 by lia. rewrite (nth_map_in g []) by lia. unfold g.
+          rewrite !app_length, !repeat_length, BR by exact L. lia.
+        * rewrite app_nth2 by lia. rewrite GL. apply IR. lia.
+      + intros i j Hi Hj. unfold mat_at in *. cbn [s_H_at fst snd]. destruct (Nat.ltb_spec i p) as [L|L].
+        * rewrite app_nth1 by lia. rewrite (nth_map_in g []) by lia. unfold g. rewrite nth_padded, BR by exact L.
+          rewrite HE.
+          destruct (Nat.leb_spec left j), (Nat.ltb_spec j (left + p)), (Nat.ltb_spec j (left + (p + list_sum (map fst os)))),
+            (Nat.ltb_spec (j - left) p); cbn [andb]; try reflexivity; lia.
+        * rewrite app_nth2 by lia. rewrite GL, IE by lia.
+          replace (j - (left + p)) with (j - left - p) by lia.
+          destruct (Nat.leb_spec left j), (Nat.leb_spec (left + p) j), (Nat.ltb_spec j (left + p + list_sum (map fst os))),
+            (Nat.ltb_spec j (left + (p + list_sum (map fst os)))), (Nat.ltb_spec (j - left) p);
+            cbn [andb]; try reflexivity; lia.
+  Qed.
 End InvAny.
